@@ -234,7 +234,7 @@ def r042_interpolation(ctx):
            "the hull point (except the first)" if ok else f"indices = {A.show(ri.ret, 260)}", construct="interpolation indices")
 
 
-def r044_thresholder(ctx):
+def r044_thresholder(ctx, rule="R04.4"):
     val = M_IV + ":_validate_and_reformat_input"
     A = Analysis(ctx, no_inline=[val], max_depth=2)
     r = A.run(IT + "._pmf_predict", cls_ctx=IT)
@@ -246,9 +246,19 @@ def r044_thresholder(ctx):
     y_arg = kw(v[0], "y")
     ok = y_arg is not None and contains(y_arg, lambda t: t.op == "call" and str(t.args[0].args[0] if t.args[0].op == "global" else "").endswith(":_get_soft_predictions")) \
         or (y_arg is not None and contains(y_arg, lambda t: t.op == "attr" and t.args[1] == "estimator_"))
-    ctx.ob("R04.4", fq, v[0].node, bool(ok), "the scores are the wrapped estimator's soft predictions on X", construct="scores source")
+    ctx.ob(rule, fq, v[0].node, bool(ok), "the scores are the wrapped estimator's soft predictions on X", construct="scores source")
+    # selecting a group's rows by multiplying with a 0/1 mask is not a masked assignment: 0 * inf is NaN
+    acc = [e for e in r.events if e.kind == "store" and e.data.get("tkind") == "name" and e.loops and e.func == fq
+           and e.data["value"].op == "binop" and e.data["value"].args[0] == "+" and any(
+               x.op == "binop" and x.args[0] == "*" and any(y.op == "cmp" and y.args[0] == "==" for y in x.args[1:])
+               for x in e.data["value"].args[1:])]
+    if acc:
+        ctx.ob(rule, fq, acc[0].node, False, "the rows of a group are selected by multiplying the probabilities with a 0/1 mask and "
+               "adding: for an infinite score 0 * inf is NaN, so the row's probabilities are not a distribution (the masked "
+               "assignment p[mask] = v[mask] is required)", construct="thresholder probability")
+        return
     st = [e for e in r.events if e.kind == "store" and e.data.get("tkind") == "sub" and e.loops and e.func == fq]
-    ctx.floor("R04.4", "masked assignments in _pmf_predict", len(st), 1)
+    ctx.floor(rule, "masked assignments in _pmf_predict", len(st), 1)
     e = st[0]
     lev = [x for x in r.events if x.kind == "loop" and x.data.get("lid") == e.loops[-1]][0]
     a, interp = mk("sub", lev.data["elem"], const(0)), mk("sub", lev.data["elem"], const(1))
@@ -260,12 +270,12 @@ def r044_thresholder(ctx):
     val_ = e.data["value"]
     mask = e.data["key"]
     ok = val_.op == "sub" and val_.args[1] is mask and A.eq(val_.args[0], want)
-    ctx.ob("R04.4", fq, e.node, ok, "p = p_ignore*c + (1 - p_ignore)*(p0*op0(s) + p1*op1(s)) when p_ignore is present, else "
+    ctx.ob(rule, fq, e.node, ok, "p = p_ignore*c + (1 - p_ignore)*(p0*op0(s) + p1*op1(s)) when p_ignore is present, else "
            "p0*op0(s) + p1*op1(s)" if ok else f"group probabilities are {A.show(val_, 260)}", construct="thresholder probability")
     init = root_of(e.data["obj"])
     ok = A.eq(init, A.spec("0.0 * s", b)) or A.eq(init, A.spec("np.zeros(len(s))", {**b, **NP, "len": glob("builtins.len")}))
     ok = ok and not zero_over_runtime(init)
-    ctx.ob("R04.4", fq, e.node, ok, "probabilities start at 0 for every row" if ok else "the initial probabilities are not 0 for "
+    ctx.ob(rule, fq, e.node, ok, "probabilities start at 0 for every row" if ok else "the initial probabilities are not 0 for "
            f"every row ({show(init, maxdepth=3)[:60]}; 0 / score is NaN for a zero score)", construct="thresholder initial probabilities")
 
 
